@@ -44,10 +44,12 @@ SCHEDS = [
     {"policy": "pct", "d": 2, "horizon": 3000, "preempt": "line"},
     {"policy": "rr", "q": 3, "preempt": "line"},
     {"policy": "random", "p": 0.2, "preempt": "sync"},
+    {"policy": "random", "p": 0.5, "preempt": "sync"},
+    {"policy": "pct", "d": 2, "horizon": 150, "preempt": "sync"},
 ]
 OPS = ["answer_ok", "answer_ok", "answer_refuse", "answer_stale", "answer_unknown", "no_answer", "send_s1f13",
        "send_s1f13", "primary", "primary_user", "wait_short", "wait_t3m", "wait_t3p", "wait_delay", "wait_long",
-       "link_lost", "cycle", "check", "slow_then_disable"]
+       "link_lost", "cycle", "check", "slow_then_disable", "answer_drop", "answer_drop"]
 
 
 def gen_plan(rng, tier, index):
@@ -56,6 +58,11 @@ def gen_plan(rng, tier, index):
             "transport": rng.choice(["hsms", "hsms", "hsms", "secsi"]),
             "t3": rng.choice([1.0, 3.0]), "delay": rng.choice([1, 4]), "first": rng.choice(["ok", "ok", "refuse", "none"]),
             "latency": rng.choice([0.0, 0.0005, 0.01])}
+    if plan["role"] == "equipment" and rng.random() < 0.25:
+        # the host configures the establish-communications delay through equipment constant 1 (S2F15) once communication
+        # is up; the rest of the history is judged against that value
+        plan["ec_delay"] = rng.choice([10, 11])
+        plan["first"] = "ok"
     sched = dict(rng.choice(SCHEDS))
     sched["seed"] = rng.getrandbits(48)
     plan["sched"] = sched
@@ -76,14 +83,14 @@ def run(sim, plan):
 
     k = sim.k
     role = plan["role"]
-    T3, DELAY = plan["t3"], plan["delay"]
+    T3, DELAY = plan["t3"], plan.get("ec_delay") or plan["delay"]
     sim.make_net(latency=plan["latency"])
     transport = plan.get("transport", "hsms")
     secsi = transport == "secsi"
     line = sim.make_line(a="SIMA", b="SIMB") if secsi else None
     if secsi:
         sim.probe("transport_secsi")
-    env = gemenv.GemEnv(sim, role=role, active=plan["active"], t3=T3, delay=DELAY, transport=transport, line=line,
+    env = gemenv.GemEnv(sim, role=role, active=plan["active"], t3=T3, delay=plan["delay"], transport=transport, line=line,
                         **({"initial_control_state": "EQUIPMENT_OFFLINE"} if role == "equipment" else {}))
     handler = env.handler
     user_calls = []
@@ -178,8 +185,23 @@ def run(sim, plan):
 
     # first attempt handling according to plan["first"]
     ops = [[{"ok": "answer_ok", "refuse": "answer_refuse", "none": "no_answer"}[plan["first"]], 0]] + plan["ops"]
-    for op, arg in ops:
+    for op_i, (op, arg) in enumerate(ops):
         peer = env.peer
+        if op_i == 1 and plan.get("ec_delay"):
+            # communication was established by the first exchange: set EstablishCommunicationsTimeout (ECID 1)
+            if env.comm_state != "COMMUNICATING":
+                sim.inconclusive("first exchange did not establish communication")
+            rep_ = peer.request(2, 15, rc.ls(rc.ls(rc.u4(1), rc.i2(plan["ec_delay"]))), timeout=T3 + 1)
+            ok_ = False
+            try:
+                ok_ = rep_ is not None and (rep_.stream, rep_.function) == (2, 16) and \
+                    rc.decode_body(rep_.body).value == b"\x00"
+            except Exception:  # noqa: BLE001
+                ok_ = False
+            if not ok_:
+                sim.inconclusive(f"S2F15 for ECID 1 was not acknowledged with EAC 0 ({rep_!r}) - C13's subject")
+            sim.probe("delay_set_by_s2f15")
+            hist.append("s2f15-delay")
         hist.append(op)
         link_up = peer is not None and peer.hp.open and env.conn_state == "CONNECTED_SELECTED"
         if op in ("answer_ok", "answer_refuse", "answer_stale", "answer_unknown"):
@@ -273,11 +295,20 @@ def run(sim, plan):
             check(op)
         elif op == "check":
             check(op)
-        elif op == "link_lost":
+        elif op in ("link_lost", "answer_drop"):
             if not link_up or secsi:
                 continue
             sim.probe("link_lost")
             nontrivial = True
+            if op == "answer_drop":
+                # the S1F14 that completes the exchange and the end of the connection arrive together: the dispatcher
+                # thread (s1f14 received) and the connection thread (communication failed) act at the same time
+                cr = open_attempt()
+                if cr is not None:
+                    cr["answered"] = 0
+                    send_s1f14(peer, cr["system"], 0)
+                    sim.probe("s1f14_then_link_lost")
+                    sim.focus(2)
             (peer.hp.close if arg != 1 else peer.hp.reset)()
             sim.wait_until(lambda: env.conn_state == "NOT_CONNECTED", 10)
             ep["lost"] = True
